@@ -42,13 +42,59 @@ type c05Case struct {
 	CLIArgs  []string          `json:"cli_args,omitempty"`
 	Runs     []c05Run          `json:"runs"`
 	Injected []string          `json:"injected,omitempty"`
+	// Soup maps a file name to statements spliced before the closing brace of
+	// that module: mostly misplaced or contradictory ones, several at a time,
+	// so that the AST builder has more than one thing to complain about (which
+	// one it reports must not depend on map order).
+	Soup map[string]string `json:"soup,omitempty"`
 }
 
 func (c *c05Case) texts() map[string]string {
 	if len(c.Rendered) > 0 {
 		return c.Rendered
 	}
-	return model.RenderAll(c.Scenario)
+	t := model.RenderAll(c.Scenario)
+	for n, raw := range c.Soup {
+		if d, ok := derive(t, badSpec{From: n, Kind: "raw", Raw: raw}); ok {
+			t[n] = d
+		}
+	}
+	return t
+}
+
+// soupPool holds statements that are valid somewhere in YANG; spliced at the
+// top level of a module or submodule, or wrapped in some node, most of them
+// are misplaced, duplicated or contradict what is there.
+var soupPool = []string{
+	`namespace "urn:zz";`, `prefix zz;`, `belongs-to zzm { prefix zzp; }`, `yang-version 1.1;`, `yang-version 1;`,
+	`organization "o";`, `contact "c";`, `description "d";`, `reference "r";`, `revision 2001-01-01;`,
+	`import zzi { prefix zzi; }`, `include zzs;`, `feature zzf;`, `extension zze;`, `identity zzid;`,
+	`typedef zzt { type string; }`, `grouping zzg { }`, `config true;`, `config false;`, `mandatory true;`, `key "k";`,
+	`unique "u";`, `min-elements 1;`, `max-elements 2;`, `ordered-by user;`, `presence "p";`, `units "u";`, `default "d";`,
+	`status current;`, `when "x";`, `must "x";`, `input { }`, `output { }`, `case zzc { }`, `type string;`, `type int8;`,
+	`path "../x";`, `base zzb;`, `value 1;`, `position 1;`, `range "1..2";`, `length "1..2";`, `pattern "a";`,
+	`fraction-digits 2;`, `require-instance true;`, `error-message "m";`, `error-app-tag "t";`, `argument a;`,
+	`yin-element true;`, `deviate add { }`, `refine x { }`, `augment "/zz:x" { }`, `anyxml zza;`, `uses zzu;`,
+	`choice zzch { }`, `leaf zzl { type string; }`, `notification zzn { }`, `rpc zzr { }`, `action zza { }`,
+	`if-feature zzf;`, `revision-date 2001-01-01;`, `modifier invert-match;`, `bogus 1;`, `zz:ext 1;`,
+}
+
+var soupWrap = []string{"", "", "container zzw { %s }", "leaf zzw { %s }", "list zzw { %s }", "leaf-list zzw { %s }", "choice zzw { %s }",
+	"rpc zzw { %s }", "notification zzw { %s }", "typedef zzw { %s }", "grouping zzw { %s }", "identity zzw { %s }",
+	"leaf zzw { type enumeration { enum a { %s } } }", "leaf zzw { type string { %s } }", "augment \"/zz:y\" { %s }",
+	"deviation \"/zz:y\" { deviate replace { %s } }", "extension zzw { %s }", "feature zzw { %s }", "import zzw { %s }",
+	"revision 2002-02-02 { %s }", "anydata zzw { %s }", "container zzw { uses zzw2 { %s } }"}
+
+func genSoup(t *tape.Tape) string {
+	var parts []string
+	for k := t.Range(2, 4); k > 0; k-- {
+		parts = append(parts, soupPool[t.Intn(len(soupPool))])
+	}
+	body := strings.Join(parts, " ")
+	if w := soupWrap[t.Intn(len(soupWrap))]; w != "" {
+		body = fmt.Sprintf(w, body)
+	}
+	return "  " + body + "\n"
 }
 
 type c05Driver struct{}
@@ -117,6 +163,30 @@ func (c05Driver) Generate(t *tape.Tape, tier string) core.Case {
 			tops[p[0]].NS = tops[p[1]].NS
 			c.Injected = append(c.Injected, "shared-namespace")
 		}
+	}
+	// statement soup in one text
+	if st := t.Sub("soup"); st.Chance(1, 4) {
+		fn := sortedNames(model.RenderAll(g.S))
+		c.Soup = map[string]string{}
+		// one text only: with two rejected texts, which of them is reported
+		// (first) depends on the load order by definition
+		target := fn[st.Intn(len(fn))]
+		c.Soup[target] = genSoup(st)
+		if st.Chance(1, 4) {
+			// header confusion: everything the other kind of text requires
+			hdr := "  belongs-to zzm { prefix zzp; }\n"
+			for _, m := range g.S.Mods {
+				if m.FileName() == target && m.IsSub() {
+					hdr = "  namespace \"urn:zz\"; prefix zz;\n"
+				}
+			}
+			if st.Chance(1, 2) {
+				c.Soup[target] = hdr
+			} else {
+				c.Soup[target] = hdr + c.Soup[target]
+			}
+		}
+		c.Injected = append(c.Injected, "statement-soup")
 	}
 	ot := t.Sub("options")
 	c.Options.StoreUses = ot.Chance(1, 4)
@@ -445,10 +515,25 @@ func (c05Driver) Shrink(cc core.Case) []core.Case {
 			out = append(out, n)
 		}
 	}
+	soupKeys := make([]string, 0, len(c.Soup))
+	for k := range c.Soup {
+		soupKeys = append(soupKeys, k)
+	}
+	sort.Strings(soupKeys)
+	for _, k := range soupKeys {
+		n := clone()
+		delete(n.Soup, k)
+		out = append(out, n)
+	}
 	if c.Scenario != nil {
 		for _, s := range model.ShrinkScenario(c.Scenario) {
 			n := clone()
 			n.Scenario = s
+			for k := range n.Soup {
+				if _, ok := model.RenderAll(s)[k]; !ok {
+					delete(n.Soup, k)
+				}
+			}
 			names := sortedNames(model.RenderAll(s))
 			ok := map[string]bool{}
 			for _, x := range names {
